@@ -339,7 +339,9 @@ def one_case(run, C, q, spec, sides, cl, cr, stats):
     gc_ = _res_canon(got[1])
     stats["evaluated"] = stats.get("evaluated", 0) + 1
     if gc_ != refc:
-        run.violation("%s: result %s differs from the uncut run %s" % (tag, _short(gc_), _short(refc)), case)
+        # known finding D206: DataFrame.combine planned through the alignment path (an operand re-imported at a cut is not co-aligned)
+        fid = "D206" if "combine(" in tag and "combine_first" not in tag else None
+        run.violation("%s: result %s differs from the uncut run %s" % (tag, _short(gc_), _short(refc)), case, finding=fid)
         return
     if hasattr(final, "_meta") and hasattr(r[1], "_meta"):
         mm = meta_mismatch(final._meta, r[1]._meta) if type(final._meta) is type(r[1]._meta) else "container kind differs"
